@@ -40,7 +40,7 @@ let parse_program (s : string) : reg list =
   rs
 
 (* ---------- observation = calls, err, levels ---------- *)
-type obs = { calls : int; err : string; errs : string; levels : (int * (string * string) list) list }
+type obs = { calls : int; err : string; errs : string; pardelta : string; levels : (int * (string * string) list) list }
 
 let shape_to_string (sh : int list list) : string =
   if sh = [] then "-"
@@ -82,7 +82,7 @@ let builder_fields (b : builder) : (string * string) list =
 let model_obs_rec (regs : reg list) : obs =
   let es = rec_errs regs in
   let lv = levels (accepted regs) in
-  { calls = int_of_nat (rec_calls regs); err = "none";
+  { calls = int_of_nat (rec_calls regs); err = "none"; pardelta = "";
     errs = (if es = [] then "-" else String.concat "," (List.map (fun (i, e) -> Printf.sprintf "%d@%s" (int_of_nat i) (err_to_string e)) es));
     levels = List.map (fun (t, _) -> (int_of_n t, builder_fields (plan_rec (level_prog regs t)))) lv }
 
@@ -90,16 +90,16 @@ let model_obs (regs : reg list) : obs =
   match plan regs with
   | Err e ->
       let idx = match err_index_regs regs empty_builder with Some i -> int_of_nat i | None -> -1 in
-      { calls = idx; err = err_to_string e; errs = ""; levels = [] }
+      { calls = idx; err = err_to_string e; errs = ""; pardelta = ""; levels = [] }
   | Ok _ ->
       let lv = levels regs in
-      { calls = int_of_nat (calls_regs regs); err = "none"; errs = "";
+      { calls = int_of_nat (calls_regs regs); err = "none"; errs = ""; pardelta = "";
         levels = List.filter_map (fun (t, prog) -> model_level (int_of_n t) prog) lv }
 
 (* "calls=3;err=none;L0{print=..;shape=..};L5{...};" *)
 let parse_obs (s : string) : obs =
   let len = String.length s in
-  let calls = ref (-1) and err = ref "?" and errs = ref "" and levels = ref [] in
+  let calls = ref (-1) and err = ref "?" and errs = ref "" and pardelta = ref "" and levels = ref [] in
   let i = ref 0 in
   while !i < len do
     if s.[!i] = 'L' then begin
@@ -123,12 +123,12 @@ let parse_obs (s : string) : obs =
       (match String.index_opt kv '=' with
        | Some k ->
            let key = String.sub kv 0 k and v = String.sub kv (k + 1) (String.length kv - k - 1) in
-           if key = "calls" then calls := int_of_string v else if key = "err" then err := v else if key = "errs" then errs := v
+           if key = "calls" then calls := int_of_string v else if key = "err" then err := v else if key = "errs" then errs := v else if key = "pardelta" then pardelta := v
        | None -> ());
       i := e + 1
     end
   done;
-  { calls = !calls; err = !err; errs = !errs; levels = List.rev !levels }
+  { calls = !calls; err = !err; errs = !errs; pardelta = !pardelta; levels = List.rev !levels }
 
 (* ---------- statistics ---------- *)
 let n_cases = ref 0
@@ -236,6 +236,8 @@ let check_line (line : string) : unit =
        | Some (idx, e) ->
            if real.err <> err_to_string e || real.calls <> int_of_nat idx then oracle "errors_exact" 0);
       (* recovery mode: the specification of a level is the program of its ACCEPTED registrations *)
+      (* C04: one more dispatch through the parallel entry point ran every top-level system exactly once more *)
+      if real.pardelta <> "" && real.pardelta <> "-" then oracle "par_once" 0;
       let progs = if recmode then List.map (fun (t, _) -> (int_of_n t, accepted (level_prog regs t))) (levels (accepted regs))
                   else List.map (fun (t, p) -> (int_of_n t, p)) (levels regs) in
       let max_group = ref 0 and n_stages = ref 0 in
